@@ -236,6 +236,9 @@ func respell(args []string, h uint32) []string {
 	if sel == 4 {
 		return globalsFirst(args)
 	}
+	if sel == 3 {
+		return decoyFirst(args)
+	}
 	if sel < 5 {
 		return args
 	}
@@ -268,6 +271,20 @@ func respell(args []string, h uint32) []string {
 		}
 	}
 	return out
+}
+
+// decoyFirst gives the first single-valued flag of the request twice, an earlier mention with another value in front of
+// the real one: the last mention of such a flag is the one that counts
+func decoyFirst(args []string) []string {
+	decoys := map[string]string{"--key": "F#", "--bpm": "77", "--meter": "7/8", "--velocity": "pp", "--track": "9", "--root": "Gb", "--target": "Minor2", "--maxDegree": "3", "--program": "5", "--instrument": "Decoy"}
+	for i := 0; i+1 < len(args); i++ {
+		if d, ok := decoys[args[i]]; ok {
+			out := append([]string{}, args[:i]...)
+			out = append(out, args[i], d)
+			return append(out, args[i:]...)
+		}
+	}
+	return args
 }
 
 // globalsFirst moves the global flags (--debug, -o / --output, --attr, --chord) in front of the sub-command: they are
